@@ -479,9 +479,14 @@ class HTMLParserTreeBuilder(HTMLTreeBuilder):
         try:
             parser.feed(markup)
             parser.close()
-        except AssertionError as e:
+        except (AssertionError, ValueError) as e:
             # html.parser raises AssertionError in rare cases to
             # indicate a fatal problem with the markup, especially
             # when there's an error in the doctype declaration.
+            #
+            # It can also let a ValueError escape: it passes every
+            # attribute value through html.unescape(), which calls
+            # int() on numeric character references, and int() refuses
+            # decimal strings longer than sys.get_int_max_str_digits().
             raise ParserRejectedMarkup(e)
         parser.already_closed_empty_element = []
